@@ -44,6 +44,25 @@ class CallCtx:
     def yielded(self):
         return self.st.yielded
 
+    # closure variables of a nested function under contract -------------------
+    cl_frame = None      # index of the frame holding the closure variables
+
+    def _cl(self, st, name):
+        idx = self.cl_frame
+        while idx is not None:
+            fr = st.frames[idx]
+            if name in fr.env:
+                return fr.env[name]
+            idx = fr.static
+        raise KeyError(name)
+
+    def closure(self, name):
+        """value of a closure variable in the final state"""
+        return self._cl(self.st, name)
+
+    def old_closure(self, name):
+        return self.args[name]
+
 
 class CallMixin:
     def e_Call(self, n, st):
@@ -214,12 +233,25 @@ class CallMixin:
             return res
         return self.run_body(st, fnode, env, None)
 
+    def closure_contract(self, fnode):
+        """Contract registered for a nested function (`outer.<locals>.inner`), if any."""
+        if isinstance(fnode, ast.Lambda):
+            return None
+        for q, n in self.module.functions.items():
+            if n is fnode and ".<locals>." in q:
+                c = self.reg.get(f"{self.module.rel}::{q}")
+                if c is not None and not c.inline:
+                    return c
+        return None
+
     def inline_closure(self, st, f, args, kwargs, node):
         fnode = f.a
+        # a nested function with its own contract is applied modularly (this is what makes
+        # recursion of a nested function verifiable: PY-REC)
+        c = self.closure_contract(fnode)
+        if c is not None:
+            return self.apply_contract(st, c, args, kwargs, node, cl_frame=f.b)
         env = self.bind_params(fnode, args, kwargs, node)
-        # recursion through a contract on the nested function
-        if self.contract is not None:
-            pass
         return self.run_body(st, fnode, env, f.b)
 
     def call_ordinal(self, node, name):
@@ -237,7 +269,7 @@ class CallMixin:
         return 0
 
     # ---------------------------------------------------- contract at a call --
-    def apply_contract(self, st, c: FnContract, args, kwargs, node):
+    def apply_contract(self, st, c: FnContract, args, kwargs, node, cl_frame=None):
         names = [p[0] for p in c.params]
         amap = {}
         for nme, v in zip(names, args):
@@ -261,12 +293,26 @@ class CallMixin:
                     self.add_vc("call-pre", f"{c.target.split('::')[-1]}.{nme}-in-range@{self.call_ordinal(node, c.target.split('::')[-1])}",
                                 st.pc, pre, loc=self.loc(node))
                     st.assume(pre)
+        if cl_frame is not None:
+            probe = CallCtx(self, amap, st, st)
+            probe.cl_frame = cl_frame
+            for (nme, _maker) in c.closure:
+                try:
+                    amap[nme] = probe._cl(st, nme)
+                except KeyError:
+                    raise Unsupported(f"{self.loc(node)} closure variable {nme} of {c.target} is unbound")
         entry = st.fork()
         ctx = CallCtx(self, amap, entry, st)
+        ctx.cl_frame = cl_frame
         if c.requires is not None:
             self.add_vc("call-pre", f"{c.target.split('::')[-1]}@{self.call_ordinal(node, c.target.split('::')[-1])}", st.pc,
                         self._b(c.requires(ctx)), loc=self.loc(node))
             st.assume(self._b(c.requires(ctx)))
+        if c.decreases is not None and c is self.contract and getattr(self, "entry_ctx", None) is not None:
+            # recursive call: the measure goes down (termination, PY-REC)
+            m1, m0 = c.decreases(ctx), c.decreases(self.entry_ctx)
+            self.add_vc("decreases", f"{c.target.split('::')[-1].split('.')[-1]}@{self.call_ordinal(node, c.target.split('::')[-1].split('.')[-1])}",
+                        st.pc, z3.And(m1 >= 0, m1 < m0), loc=self.loc(node))
         if c.hyps is not None:
             st.assume(self._b(c.hyps(ctx)))
         out = []
@@ -286,10 +332,26 @@ class CallMixin:
                 h = self.reg.ext_models.get(("havoc", v.sort))
                 if h is not None:
                     h(self, st, v)
+        if cl_frame is not None:
+            # rebindable closure variables: fresh values (the first alternative of the maker is used:
+            # makers of closure variables must be single-valued)
+            for (nme, maker) in c.closure:
+                if nme in c.closure_modifies:
+                    alts = maker.make(self, st, fresh_name(nme))
+                    if len(alts) != 1:
+                        raise Unsupported(f"{self.loc(node)} closure variable {nme}: maker with alternatives")
+                    cond, nv = alts[0]
+                    if cond is not None:
+                        st.assume(cond)
+                    idx = cl_frame
+                    while idx is not None and nme not in st.frames[idx].env:
+                        idx = st.frames[idx].static
+                    st.frames[idx].env[nme] = nv
         # exceptional outcomes
         for r in c.raises:
             s2 = st.fork()
             cx = CallCtx(self, amap, entry, s2)
+            cx.cl_frame = cl_frame
             cond = self._b(r.when(cx)) if r.when is not None else z3.BoolVal(True)
             if self.feasible(s2.pc, cond):
                 s2.assume(cond)
@@ -309,6 +371,7 @@ class CallMixin:
         if c.may_raise_any:
             self.exc_any(st.fork(), f"{self.loc(node)} {c.target}")
         ctx = CallCtx(self, amap, entry, st)
+        ctx.cl_frame = cl_frame
         for p, fn in c.final.items():
             v = amap[p]
             st.wobj(v.ref).data = list(fn(ctx))
@@ -327,9 +390,13 @@ class CallMixin:
                     continue
                 s2.assume(cond)
             cx = CallCtx(self, amap, entry, s2, result=rv)
+            cx.cl_frame = cl_frame
             ok = True
             for (_label, e) in c.ensures:
                 s2.assume(self._b(e(cx)))
+            if cl_frame is not None:
+                # ghost trace of modular calls of nested functions: (contract, args at entry, result)
+                s2.ghost["rcalls"] = s2.ghost.get("rcalls", ()) + ((c.target, amap, rv),)
             if ok and self.feasible(s2.pc):
                 out.append((s2, ops.lift(rv) if not isinstance(rv, V) else rv))
         return out
